@@ -439,7 +439,7 @@ func specIsHelperName(name string) bool {
 //
 //@ func (*converter).Input
 //@   ensures[C01,C10] result-is-the-fresh-helper: result == specRef(specName(len(c.funcs) > 0, c.funcCounter, specHelperName(old(c.varCounter)), false)) && c.varCounter == old(c.varCounter) + 1 && err == nil
-//@   ensures[C08,C10] read-is-raw: (len(prompt) == 0 ==> appended(c.code, old(c.code), "read -r " + specHelperName(old(c.varCounter)))) && (len(prompt) > 0 ==> appended(c.code, old(c.code), "read -r -p \"" + prompt + "\" " + specHelperName(old(c.varCounter))))
+//@   ensures[C01,C02,C08,C10] the-line-is-read-raw-into-the-helper-that-is-handed-out: (len(prompt) == 0 ==> appended(c.code, old(c.code), "read -r " + specName(len(c.funcs) > 0, c.funcCounter, specHelperName(old(c.varCounter)), false))) && (len(prompt) > 0 ==> appended(c.code, old(c.code), "read -r -p \"" + prompt + "\" " + specName(len(c.funcs) > 0, c.funcCounter, specHelperName(old(c.varCounter)), false)))
 //
 //@ func (*converter).Copy
 //@   ensures[C03] helper-call-then-the-number-of-copied-elements: appended(c.code, old(c.code), "_sch " + specName(len(c.funcs) > 0, c.funcCounter, destination, global) + " " + source, specAssign(specName(len(c.funcs) > 0, c.funcCounter, specHelperName(old(c.varCounter)), false), "$(eval \"echo \\${#" + source + "[@]}\")")) && err == nil
